@@ -133,6 +133,11 @@ pub trait AnyMsg {
     fn write_framed(self: Box<Self>) -> Result<Vec<u8>, String>;
     /// msgs::read_message::<Self> from the start of `stream`: canonical structure, bytes consumed
     fn read_typed(&self, stream: &[u8]) -> Result<(String, usize), String>;
+    /// the typed `<Self as DeBolt>::from_vec`: canonical structure of what it returns
+    fn typed_from_vec(&self, bytes: Vec<u8>) -> Result<String, String>;
+}
+pub fn typed_from_vec_as<T: DeBolt + ToCoq>(bytes: Vec<u8>) -> Result<String, String> {
+    <T as DeBolt>::from_vec(bytes).map(|v| v.canon(true)).map_err(|e| err_kind(&e).to_string())
 }
 
 pub fn write_framed_as<T: DeBolt>(v: T) -> Result<Vec<u8>, String> {
@@ -431,8 +436,8 @@ fn arb_script(g: &mut Gen) -> ScriptBuf {
 fn arb_tx(g: &mut Gen, unsigned: bool) -> Transaction {
     let (nin, nout, nwit) = match g.prof() {
         Profile::Min => (1, 0, 0),
-        Profile::Max => (3, 3, 2),
-        Profile::Rand => (1 + g.rng.below(3) as usize, g.rng.below(4) as usize, g.rng.below(3) as usize),
+        Profile::Max => (if unsigned { 4 } else { 3 }, 3, 2),
+        Profile::Rand => (1 + g.rng.below(if unsigned { 4 } else { 3 }) as usize, g.rng.below(4) as usize, g.rng.below(3) as usize),
     };
     let input = (0..nin)
         .map(|_| TxIn {
@@ -586,10 +591,30 @@ pub fn script_pool(g: &mut Gen) -> Vec<u8> {
     }
 }
 
+/// how an input's previous output relates to those of the inputs before it
+#[derive(Clone, Copy, PartialEq, Debug)]
+pub enum Share {
+    /// a previous transaction no other input spends
+    Own,
+    /// another output of a previous transaction that an earlier input (adjacent or not) spends too:
+    /// a deposit swept together with its change, several outputs of one closing transaction
+    Sibling,
+    /// the very same outpoint as an earlier input (degenerate; the decoder has no rule about it)
+    Duplicate,
+}
+
 pub fn arb_psbt(g: &mut Gen, kinds: &[InKind]) -> (Psbt, Vec<InKind>) {
+    let (p, k, _) = arb_psbt_shared(g, kinds);
+    (p, k)
+}
+
+pub fn arb_psbt_shared(g: &mut Gen, kinds: &[InKind]) -> (Psbt, Vec<InKind>, Vec<Share>) {
     let mut tx = arb_tx(g, true);
     let mut inputs = vec![];
     let mut used = vec![];
+    let mut shares = vec![];
+    // previous transactions so far, with the vouts already spent from each
+    let mut parents: Vec<(Transaction, Vec<u32>)> = vec![];
     for txin in tx.input.iter_mut() {
         let kind = match g.prof() {
             Profile::Min => InKind::Bare,
@@ -597,13 +622,58 @@ pub fn arb_psbt(g: &mut Gen, kinds: &[InKind]) -> (Psbt, Vec<InKind>) {
             Profile::Rand => *g.rng.pick(kinds),
         };
         used.push(kind);
-        let mut prev = arb_tx(g, false);
-        let nout = 1 + g.rng.below(3) as usize;
-        prev.output = (0..nout)
-            .map(|_| TxOut { value: Amount::from_sat(u64::arb(g)), script_pubkey: ScriptBuf::from_bytes(script_pool(g)) })
-            .collect();
-        let vout = g.rng.below(nout as u64) as u32;
+        // which previous transaction / output this input spends
+        let want = match g.prof() {
+            Profile::Min => Share::Own,
+            // the all-maximal value: every input after the first is a sibling of the first
+            Profile::Max => if parents.is_empty() { Share::Own } else { Share::Sibling },
+            Profile::Rand => {
+                if parents.is_empty() {
+                    Share::Own
+                } else {
+                    match g.rng.below(8) {
+                        0..=3 => Share::Sibling,
+                        4 => Share::Duplicate,
+                        _ => Share::Own,
+                    }
+                }
+            }
+        };
+        let mut share = want;
+        let mut pick = if parents.is_empty() { 0 } else { g.rng.below(parents.len() as u64) as usize };
+        if want == Share::Sibling {
+            // a parent that still has an unspent output (any earlier one: adjacent or interleaved)
+            match (0..parents.len()).map(|i| (pick + i) % parents.len()).find(|i| parents[*i].1.len() < parents[*i].0.output.len()) {
+                Some(i) => pick = i,
+                None => share = Share::Own,
+            }
+        }
+        if share == Share::Own {
+            let mut prev = arb_tx(g, false);
+            let nout = 2 + g.rng.below(3) as usize;
+            prev.output = (0..nout)
+                .map(|_| TxOut { value: Amount::from_sat(u64::arb(g)), script_pubkey: ScriptBuf::from_bytes(script_pool(g)) })
+                .collect();
+            parents.push((prev, vec![]));
+            pick = parents.len() - 1;
+        }
+        let nout = parents[pick].0.output.len();
+        let vout = match share {
+            Share::Duplicate => *g.rng.pick(&parents[pick].1),
+            _ => {
+                let free: Vec<u32> = (0..nout as u32).filter(|v| !parents[pick].1.contains(v)).collect();
+                *g.rng.pick(&free)
+            }
+        };
+        if !parents[pick].1.contains(&vout) {
+            parents[pick].1.push(vout);
+        }
+        shares.push(share);
+        let prev = parents[pick].0.clone();
         let out = prev.output[vout as usize].clone();
+        // every kind of input points at its previous transaction; whether that transaction (and / or a
+        // witness_utxo) is attached is what the kind decides
+        txin.previous_output = OutPoint { txid: prev.compute_txid(), vout };
         let mut inp = Input::default();
         match kind {
             InKind::Bare => {}
@@ -616,7 +686,6 @@ pub fn arb_psbt(g: &mut Gen, kinds: &[InKind]) -> (Psbt, Vec<InKind>) {
                 inp.witness_utxo = Some(TxOut { value: out.value, script_pubkey: ScriptBuf::from_bytes(legacy_script(g)) })
             }
             _ => {
-                txin.previous_output = OutPoint { txid: prev.compute_txid(), vout };
                 match kind {
                     InKind::NwuWu => inp.witness_utxo = Some(out.clone()),
                     InKind::NwuBadWuValue => {
@@ -645,7 +714,7 @@ pub fn arb_psbt(g: &mut Gen, kinds: &[InKind]) -> (Psbt, Vec<InKind>) {
     }
     let mut psbt = Psbt::from_unsigned_tx(tx).expect("unsigned tx");
     psbt.inputs = inputs;
-    (psbt, used)
+    (psbt, used, shares)
 }
 
 fn coq_txout(o: &TxOut) -> String {
@@ -846,6 +915,13 @@ fn run_value(ti: &TypeInfo, m: &dyn AnyMsg) -> Outcome {
             if !ti.has_streamed && re != bytes {
                 return Outcome { out: 3, bytes, detail: "same variant, different bytes after re-encoding".into() };
             }
+            // the typed decoder of the same bytes (T::from_vec) must agree
+            match catch_unwind(AssertUnwindSafe(|| m.typed_from_vec(bytes.clone()))) {
+                Ok(Ok(c)) if c == m.canon_msg(false) => {}
+                Ok(Ok(_)) => return Outcome { out: 0, bytes, detail: "typed-differs: T::from_vec returns different field values".into() },
+                Ok(Err(e)) => return Outcome { out: 0, bytes, detail: format!("typed-differs: T::from_vec refuses the bytes msgs::from_vec accepts ({})", e) },
+                Err(_) => return Outcome { out: 0, bytes, detail: "typed-differs: T::from_vec panicked".into() },
+            }
             Outcome { out: 0, bytes, detail: "ok".into() }
         }
     }
@@ -872,7 +948,7 @@ fn emit_case(ti: &TypeInfo, m: &dyn AnyMsg, kind: &str, expect: u32, note: &str,
     }
     st.max_len = st.max_len.max(o.bytes.len());
     st.types.insert(ti.name);
-    let violated = expect != 9 && o.out != expect;
+    let violated = expect != 9 && (o.out != expect || o.detail.starts_with("typed-differs"));
     if violated {
         st.monitor += 1;
     }
@@ -1409,24 +1485,71 @@ fn psbt_domain(args: &Args) {
     let mut monitor = 0u64;
     let mut flags_true = 0u64;
     let mut kinds: std::collections::BTreeMap<String, u64> = Default::default();
+    let mut share_kinds: std::collections::BTreeMap<String, u64> = Default::default();
+    let mut with_siblings = 0u64;
     for k in 0..args.n {
         let seed = args.seed.wrapping_mul(7777).wrapping_add(k as u64);
         let mut g = Gen::new(seed, Profile::Rand, None);
         let only_consistent = g.rng.chance(1, 3);
-        let (psbt, used) = arb_psbt(&mut g, if only_consistent { CONSISTENT } else { ALL_KINDS });
+        let (psbt, used, shares) = arb_psbt_shared(&mut g, if only_consistent { CONSISTENT } else { ALL_KINDS });
         for u in &used {
             *kinds.entry(format!("{:?}", u)).or_insert(0) += 1;
         }
-        let msg = SignWithdrawal { utxos: Array(vec![]), psbt: WithSize(StreamedPSBT::new(psbt.clone())) };
-        let bytes = SerBolt::as_vec(&msg);
-        let dec = catch_unwind(AssertUnwindSafe(|| msgs::from_vec(bytes.clone())));
+        for sh in &shares {
+            *share_kinds.entry(format!("{:?}", sh)).or_insert(0) += 1;
+        }
+        if shares.iter().any(|x| *x == Share::Sibling) {
+            with_siblings += 1;
+        }
+        // every message that carries a streamed PSBT, in turn; through the registry (msgs::from_vec) and
+        // through the message's own typed from_vec
+        let carrier = ["SignWithdrawal", "SignAnchorspend", "SignHtlcTxMingle"][k % 3];
+        let sp_new = || WithSize(StreamedPSBT::new(psbt.clone()));
+        let peer = PubKey([2u8; 33]);
+        let bytes = match carrier {
+            "SignWithdrawal" => SerBolt::as_vec(&SignWithdrawal { utxos: Array(vec![]), psbt: sp_new() }),
+            "SignAnchorspend" => SerBolt::as_vec(&SignAnchorspend { peer_id: peer, dbid: 7, utxos: Array(vec![]), psbt: sp_new() }),
+            _ => SerBolt::as_vec(&SignHtlcTxMingle { peer_id: peer, dbid: 7, utxos: Array(vec![]), psbt: sp_new() }),
+        };
+        let dec = catch_unwind(AssertUnwindSafe(|| {
+            let via_registry = msgs::from_vec(bytes.clone()).map(|m| match m {
+                Message::SignWithdrawal(d) => Some(d.psbt.0),
+                Message::SignAnchorspend(d) => Some(d.psbt.0),
+                Message::SignHtlcTxMingle(d) => Some(d.psbt.0),
+                _ => None,
+            });
+            let typed = match carrier {
+                "SignWithdrawal" => <SignWithdrawal as DeBolt>::from_vec(bytes.clone()).map(|d| d.psbt.0),
+                "SignAnchorspend" => <SignAnchorspend as DeBolt>::from_vec(bytes.clone()).map(|d| d.psbt.0),
+                _ => <SignHtlcTxMingle as DeBolt>::from_vec(bytes.clone()).map(|d| d.psbt.0),
+            };
+            (via_registry, typed)
+        }));
+        // the two decoders of the same bytes must agree (accept / refuse, and on what they return)
+        let mut typed_note = String::new();
+        let dec = dec.map(|(reg, typed)| {
+            match (&reg, &typed) {
+                (Ok(Some(a)), Ok(b)) => {
+                    if a.psbt().unsigned_tx != b.psbt().unsigned_tx || a.segwit_flags != b.segwit_flags
+                        || a.psbt().inputs.iter().map(|i| i.witness_utxo.clone()).collect::<Vec<_>>()
+                            != b.psbt().inputs.iter().map(|i| i.witness_utxo.clone()).collect::<Vec<_>>()
+                    {
+                        typed_note = format!("{}::from_vec and msgs::from_vec return different PSBT data", carrier);
+                    }
+                }
+                (Err(_), Err(_)) => {}
+                (Ok(None), _) => {}
+                _ => typed_note = format!("{}::from_vec and msgs::from_vec disagree on accepting the bytes", carrier),
+            }
+            reg
+        });
         let (reference_outs, reference_flags) = reference_summary(&psbt);
         let expect_ok = used.iter().all(|u| CONSISTENT.contains(u));
         let mut violation = String::new();
         let obs = match dec {
-            Ok(Ok(Message::SignWithdrawal(d))) => {
+            Ok(Ok(Some(sp))) => {
                 n_ok += 1;
-                let sp = &d.psbt.0;
+                let sp = &sp;
                 let p = sp.psbt();
                 let outs: Vec<Option<TxOut>> = p.inputs.iter().map(|i| i.witness_utxo.clone()).collect();
                 let kept = p.inputs.iter().any(|i| i.non_witness_utxo.is_some());
@@ -1445,14 +1568,15 @@ fn psbt_domain(args: &Args) {
                 let f: Vec<&str> = sp.segwit_flags.iter().map(|b| coq_bool(*b)).collect();
                 format!("(Some ({}%list, {}, {}%list))", coq_list(&o), coq_bool(kept), coq_list(&f))
             }
-            Ok(Ok(_)) => {
+            Ok(Ok(None)) => {
                 violation = "decoded as another message".into();
                 "None".to_string()
             }
-            Ok(Err(_)) => {
+            Ok(Err(e)) => {
                 n_err += 1;
                 if expect_ok {
-                    violation = "a consistent PSBT was refused".into();
+                    violation = format!("{}: a consistent PSBT was refused by msgs::from_vec of the message's own encoding ({}); inputs {:?} / {:?}",
+                                        carrier, err_kind(&e), used, shares);
                 }
                 "None".to_string()
             }
@@ -1461,11 +1585,16 @@ fn psbt_domain(args: &Args) {
                 "None".to_string()
             }
         };
+        if violation.is_empty() && !typed_note.is_empty() {
+            violation = typed_note;
+        }
         if !violation.is_empty() {
             monitor += 1;
         }
         let coq = format!("({}, {})", coq_psbt_view(&psbt), obs);
-        emit("PSBT", json!({"seed": seed, "inputs": used.iter().map(|u| format!("{:?}", u)).collect::<Vec<_>>(),
+        emit("PSBT", json!({"seed": seed, "carrier": carrier, "inputs": used.iter().map(|u| format!("{:?}", u)).collect::<Vec<_>>(),
+                            "shares": shares.iter().map(|u| format!("{:?}", u)).collect::<Vec<_>>(),
+                            "message_hex": if violation.is_empty() { String::new() } else { hex::encode(&bytes) },
                             "accepted": obs != "None", "monitor_violation": violation, "coq": coq,
                             "psbt_hex": if violation.is_empty() { String::new() } else { hex::encode(psbt.serialize()) }}));
     }
@@ -1488,7 +1617,7 @@ fn psbt_domain(args: &Args) {
                           "coq": format!("({}, {}, {})", coq_bytes(&s), coq_bool(b), coq_bool(h))}));
     }
     emit("STATS", json!({"domain": "wire-psbt", "evaluations": args.n, "accepted": n_ok, "refused": n_err,
-                         "input_kinds": kinds, "segwit_flags_true": flags_true, "monitor_violations": monitor,
+                         "input_kinds": kinds, "input_parents": share_kinds, "psbts_with_sibling_inputs": with_siblings, "segwit_flags_true": flags_true, "monitor_violations": monitor,
                          "witness_program_cases": nwp, "witness_program_true": wp_true, "p2sh_true": sh_true}));
 }
 
